@@ -543,6 +543,22 @@ def kappa_2d(check):
         check.record("KAPPA-2D", "%s [%s %s-faces]" % (ci.qualname, r.array[2], r.fam[0]), ok,
                      "state = cell value +- (1-k)/4 * far difference +- (1+k)/4 * near difference along %s, on the right face range" % ("x" if r.fam == "if" else "y") if ok else
                      "relation is %s on %s, expected %s on %s" % (A.show(r.expr, 120), dom_key(A, r), A.show(w[0], 120), w[1]), f.loc(), key="k2d-%s-%s" % (r.array, r.fam))
+    # the differences the extrapolation uses are defined on every interior face of every row / column
+    g = proj.func("modeldisc.fvm2dcart.calc_grad")
+    for shapes, sname in (((1,), "scalar"), ((2,), "vector")):
+        D2, st2, _, _, _ = collect(proj, shapes, PER, "extrapol2dk")
+        A2 = D2.eng.alg
+        rels = st2.get("calc_grad", [])
+        wantdom = {"if": (("1", "nx"), ("0", "ny")), "jf": (("0", "nx"), ("1", "ny"))}
+        fams = sorted({r.fam for r in rels})
+        bad = [r for r in rels if r.fam in wantdom and dom_key(A2, r) != wantdom[r.fam]]
+        if bad:
+            r = bad[0]
+            check.violation("GRAD-2D", "%s [%s]" % (g.qualname, sname), "face difference %s|%s is defined on %s, expected every interior face %s: rows / columns outside keep zero differences and lose the kappa terms there" % (r.array, r.fam, dom_key(A2, r), wantdom[r.fam]), g.loc(), key="grad-dom-" + sname)
+        elif fams != ["if", "jf"]:
+            check.violation("GRAD-2D", "%s [%s]" % (g.qualname, sname), "face differences are defined for the families %s only" % fams, g.loc(), key="grad-fam-" + sname)
+        else:
+            check.ok("GRAD-2D", "%s [%s]" % (g.qualname, sname), "x-differences on all interior i-faces of every row, y-differences on all interior j-faces of every column (%d relations)" % len(rels), g.loc())
     D, stages, calls, got, ci = collect(proj, (1,), PER, "extrapol2d1")
     A = D.eng.alg
     f = proj.resolve(ci, "interp_face")
